@@ -242,6 +242,7 @@ const (
 
 type member struct {
 	backup bool
+	obj    *host.Host // the object handed to the processor for this member (its health flag is what the proxy goes by)
 }
 
 type liveConn struct {
@@ -280,7 +281,7 @@ func checkE2E(c e2eCase) (nt bool, v *verdict) {
 	}
 	hc := &hcpb.HealthCheck{Interval: hcInterval, Timeout: 200 * time.Millisecond, FallThreshold: uint32(c.Fall), RiseThreshold: uint32(c.Rise),
 		Checker: &hcpb.HealthCheck_TcpChecker{TcpChecker: &hcpb.TCPChecker{}}}
-	px, err := tcpsim.Start(tcpsim.Opts{Policy: service.LoadBalancePolicy(c.Policy), HealthCheck: hc})
+	px, err := tcpsim.Start(tcpsim.Opts{Policy: service.LoadBalancePolicy(c.Policy), HealthCheck: hc, ConnectTimeout: 3 * time.Second})
 	if err != nil {
 		return false, &verdict{"proxy-start", err.Error()}
 	}
@@ -311,10 +312,29 @@ func checkE2E(c e2eCase) (nt bool, v *verdict) {
 		return h
 	}
 	policy, hcOn, fall, rise := c.Policy, true, c.Fall, c.Rise
-	detection := time.Duration(maxInt(c.Fall, c.Rise)+3)*hcInterval + 60*time.Millisecond
+	detection := 2*time.Duration(maxInt(c.Fall, c.Rise)+3)*hcInterval + 250*time.Millisecond // generous: the checker shares a busy machine
+	var settleStuck string
 	settle := func() {
 		if d := time.Until(lastFlip.Add(detection)); d > 0 {
 			time.Sleep(d)
+		}
+		if !hcOn {
+			return
+		}
+		// the detection window is a lower bound on a busy machine: wait until the health flag of every member's object (the
+		// one handed to the processor) says what the backend's state is - the checker's rounds may be late, not absent
+		deadline := time.Now().Add(10 * time.Second)
+		for {
+			settleStuck = ""
+			for i, m := range members {
+				if m.obj != nil && m.obj.IsHealthy() != up[i] {
+					settleStuck = fmt.Sprintf("member %d (%s) has been up=%v for %v but its health flag is still %v", i, backends[i].Addr, up[i], time.Since(flipAt[i]).Round(time.Millisecond), m.obj.IsHealthy())
+				}
+			}
+			if settleStuck == "" || time.Now().After(deadline) {
+				return
+			}
+			time.Sleep(5 * time.Millisecond)
 		}
 	}
 	// usable set by the statement: healthy members of the preferred tier
@@ -367,7 +387,8 @@ func checkE2E(c e2eCase) (nt bool, v *verdict) {
 				continue
 			}
 			m.backup = !m.backup
-			px.P.OnSvcHostAdd([]*host.Host{mk(h, m.backup)})
+			m.obj = mk(h, m.backup)
+			px.P.OnSvcHostAdd([]*host.Host{m.obj})
 			if !up[h] {
 				lastFlip = time.Now() // the replacing object starts healthy: a host that is down must first be detected again
 			}
@@ -386,8 +407,8 @@ func checkE2E(c e2eCase) (nt bool, v *verdict) {
 			if members[h] != nil {
 				continue // the config store never adds a present address again
 			}
-			members[h] = &member{backup: o.Backup}
-			px.P.OnSvcHostAdd([]*host.Host{mk(h, o.Backup)})
+			members[h] = &member{backup: o.Backup, obj: mk(h, o.Backup)}
+			px.P.OnSvcHostAdd([]*host.Host{members[h].obj})
 			if !up[h] {
 				lastFlip = time.Now() // a host that is down when added must first be detected
 			}
@@ -468,8 +489,8 @@ func checkE2E(c e2eCase) (nt bool, v *verdict) {
 				if members[hi] != nil {
 					continue
 				}
-				members[hi] = &member{backup: x%2 == 1}
-				hs = append(hs, mk(hi, x%2 == 1))
+				members[hi] = &member{backup: x%2 == 1, obj: mk(hi, x%2 == 1)}
+				hs = append(hs, members[hi].obj)
 			}
 			px.P.OnSvcAllHostReplace(hs)
 			lastFlip = time.Now()
@@ -495,6 +516,81 @@ func checkE2E(c e2eCase) (nt bool, v *verdict) {
 				up[h] = true
 				lastFlip = time.Now()
 				flipAt[h] = lastFlip
+			}
+		case "slowremove":
+			// a member is removed while connects to it are in flight: its address is black-holed (SYNs dropped), connections
+			// arrive and some are picked for it, the host is removed, then the backend accepts again and the pending connects
+			// complete (SYN retransmission, ~1 s). A connection that ends up relayed to the removed host must be closed.
+			m := members[h]
+			if m == nil || !up[h] || len(members) < 1 {
+				continue
+			}
+			end, err := backends[h].Blackhole()
+			if err != nil {
+				backends[h].Start()
+				continue
+			}
+			type res struct {
+				c  net.Conn
+				bi int
+			}
+			k := 2*len(members) + 1
+			out := make(chan res, k)
+			for j := 0; j < k; j++ {
+				go func() {
+					cl, err := net.DialTimeout("tcp", px.Addr, 2*time.Second)
+					if err != nil {
+						out <- res{nil, -1}
+						return
+					}
+					cl.SetReadDeadline(time.Now().Add(6 * time.Second))
+					b := make([]byte, 1)
+					if n, _ := cl.Read(b); n == 1 {
+						out <- res{cl, int(b[0] - 'A')}
+						return
+					}
+					cl.Close()
+					out <- res{nil, -1}
+				}()
+			}
+			time.Sleep(60 * time.Millisecond)
+			delete(members, h)
+			px.P.OnSvcHostRemove([]*host.Host{mk(h, m.backup)})
+			end()
+			backends[h].Start()
+			lastFlip = time.Now()
+			flipAt[h] = lastFlip
+			nt = true
+			var toRemoved []net.Conn
+			for j := 0; j < k; j++ {
+				r := <-out
+				switch {
+				case r.c == nil:
+				case r.bi == h:
+					toRemoved = append(toRemoved, r.c)
+				default:
+					live = append(live, &liveConn{r.c, r.bi})
+				}
+			}
+			for _, cl := range toRemoved {
+				cl.SetReadDeadline(time.Now().Add(5 * time.Second))
+				_, err := cl.Read(make([]byte, 16))
+				cl.Close()
+				if ne, ok := err.(net.Error); ok && ne.Timeout() {
+					return nt, &verdict{"connection-survives-host-removal", fmt.Sprintf("%s: host %s was removed while the connect to it was in flight; the connection that was then relayed to it was still open 5s later", where, backends[h].Addr)}
+				}
+			}
+			// established connections to the removed host are closed as well; forget them
+			{
+				var keep []*liveConn
+				for _, lc := range live {
+					if lc.backend != h {
+						keep = append(keep, lc)
+					} else {
+						lc.c.Close()
+					}
+				}
+				live = keep
 			}
 		case "config":
 			// the service configuration is updated at run time: another balancing policy and / or another health check
@@ -522,7 +618,7 @@ func checkE2E(c e2eCase) (nt bool, v *verdict) {
 			policy = o.Policy
 			if o.HC > 0 {
 				hcOn, fall, rise = true, o.Fall, o.Rise
-				detection = time.Duration(maxInt(fall, rise)+3)*hcInterval + 60*time.Millisecond
+				detection = 2*time.Duration(maxInt(fall, rise)+3)*hcInterval + 250*time.Millisecond
 			} else {
 				hcOn = false
 			}
@@ -561,6 +657,9 @@ func checkE2E(c e2eCase) (nt bool, v *verdict) {
 			}
 		case "connect":
 			settle() // health state has converged: the usable set is well defined
+			if settleStuck != "" {
+				return nt, &verdict{"health-state-never-converges", fmt.Sprintf("%s: %s (10 s after the detection window of %v)", where, settleStuck, detection)}
+			}
 			us := usable()
 			n := o.N
 			allUp := true
@@ -684,7 +783,9 @@ func genE2E(t *rapid.T) e2eCase {
 		switch x := rapid.IntRange(0, 18).Draw(t, "op"); {
 		case x >= 17:
 			o.Op, o.N = "blip", rapid.IntRange(1, 8).Draw(t, "blipn")
-			if rapid.Bool().Draw(t, "cfgop") {
+			if rapid.IntRange(0, 2).Draw(t, "slowrm") == 0 {
+				o = eop{Op: "slowremove", Host: o.Host}
+			} else if rapid.Bool().Draw(t, "cfgop") {
 				o = eop{Op: "config", Policy: rapid.IntRange(0, 2).Draw(t, "npolicy"), HC: rapid.SampledFrom([]int{0, 1, 1}).Draw(t, "nhc"), Fall: rapid.IntRange(1, 3).Draw(t, "nfall"), Rise: rapid.IntRange(1, 3).Draw(t, "nrise")}
 			}
 		case x <= 2:
